@@ -142,6 +142,15 @@ def hyperbolic_lens(R, n_num, n_den, fno, thick=0.2):
                       dict(R=R2, k=-(n * n), mat="air", t=f, el=("conic_refr", n_num, n_den))]}
 
 
+def touching_stop_hyperbolic(R, n_num, n_den, fno):
+    """The plano-hyperbolic singlet with a separate plane stop in air touching its flat face (zero
+    gap): the rays arrive on the flat face already lying on it."""
+    s = hyperbolic_lens(R, n_num, n_den, fno)
+    s["fam"] = "touching_stop_hyperbolic"
+    s["surfs"] = [dict(R=INF, k=0.0, mat="air", t=0.0, el=("plane_refr", 0, 1))] + s["surfs"]
+    return s
+
+
 def elliptic_front(R, n_num, n_den, fno):
     """Ellipsoidal front surface (k = -1/n^2, R > 0): collimated light focuses inside the glass."""
     n = n_num / n_den
